@@ -312,7 +312,7 @@ func verifSpecUnary(op token.Token, x verifOperand) (reason int, res verifOperan
 func VerifH_K_unop() {
 	ops := []token.Token{token.ADD, token.SUB, token.XOR, token.NOT}
 	op := ops[vp.Choose("op", len(ops))]
-	x := verifChooseOperand("x", verifKinds())
+	x := verifChooseOperand("x", verifKindsAll) // cheap: every kind in both tiers
 	vp.Fact("op", int(op))
 	verifOperandFacts("x", x)
 	reason, res := verifSpecUnary(op, x)
